@@ -184,6 +184,14 @@ def evaluate_values(case):
                         fails.append(f"{X}_to_{Y}: a scalar abscissa {x1!r} gives different values than the array filled with it")
                 except Exception as ex:  # noqa: BLE001
                     fails.append(f"{X}_to_{Y}: a scalar abscissa raises {type(ex).__name__}")
+            # the conversions are element-wise: the same numbers arranged as a 2-D block (frames x points) give the same values
+            if len(x) >= 4 and len(x) % 2 == 0 and not case.get("int_inputs"):
+                try:
+                    o2, _ = conv(X, Y, x.reshape(2, -1), y.reshape(2, -1), None, kw)
+                    if np.asarray(o2).shape != (2, len(x) // 2) or not np.array_equal(np.asarray(o2, dtype=float).ravel(), out if isinstance(out, np.ndarray) else np.asarray(out, dtype=float), equal_nan=True):
+                        fails.append(f"{X}_to_{Y}: the same abscissae and values arranged as a 2 x {len(x) // 2} block give other values than as a vector")
+                except Exception as ex:  # noqa: BLE001
+                    fails.append(f"{X}_to_{Y}: a 2-D block of abscissae and values raises {type(ex).__name__}")
             # the conversions between Q[S-1] and F_K, and between G and G_K, are linear: data 10^14 times smaller (another unit, a weak
             # signal) give values 10^14 times smaller, digit for digit — no constant is added and subtracted on the way
             if (X in ("F", "FK") and Y in ("F", "FK")) or (X in ("G", "GK") and Y in ("G", "GK")):
@@ -235,6 +243,10 @@ def evaluate_unc(case):
             if u0 is None:
                 fails.append(f"{X}_to_{Y}: uncertainty output is None" + (" when no uncertainty is supplied" if dy is None else ""))
                 continue
+            xc2 = confusable(np.sort(x))
+            if xc2 is not None and len(x) <= 200 and np.all(np.diff(x) > 0) and dy is not None:
+                if history_differs("Converter", f"{X}_to_{Y}", (x, y, dy), kw, [(f"{X}_to_{Y}", (xc2, y, dy), kw)]):
+                    fails.append(f"{X}_to_{Y}: the uncertainty depends on calls the same Converter served before (a grid with the same length and end points)")
             u0 = np.asarray(u0, dtype=float)
             if u0.shape != y.shape:
                 fails.append(f"{X}_to_{Y}: uncertainty has shape {u0.shape}, data {y.shape}")
